@@ -12,6 +12,7 @@ import (
 	"github.com/XiaoMi/Gaea/parser/ast"
 	driver "github.com/XiaoMi/Gaea/parser/tidb-types/parser_driver"
 	"github.com/XiaoMi/Gaea/proxy/sequence"
+	"github.com/XiaoMi/Gaea/util"
 	vs "github.com/XiaoMi/Gaea/zz_verifsym"
 )
 
@@ -28,6 +29,35 @@ func vhTokenGen(lo, hi int64) vhValGen {
 		n++
 		return v, ve
 	}
+}
+
+// vhC05Exec stands in for the session: every statement is answered with a symbolic affected-row count.
+type vhC05Exec struct {
+	statements int
+	sum        uint64
+}
+
+func (e *vhC05Exec) ExecuteSQL(ctx *util.RequestContext, slice, db, sql string) (*mysql.Result, error) {
+	return nil, fmt.Errorf("unexpected")
+}
+func (e *vhC05Exec) ExecuteSQLs(ctx *util.RequestContext, sqls map[string]map[string][]string) ([]*mysql.Result, error) {
+	var rs []*mysql.Result
+	for _, dbs := range sqls {
+		for _, list := range dbs {
+			for range list {
+				n := uint64(vs.SymRange("affected", 0, 1<<40))
+				e.statements++
+				e.sum += n
+				rs = append(rs, &mysql.Result{AffectedRows: n})
+			}
+		}
+	}
+	return rs, nil
+}
+func (e *vhC05Exec) SetLastInsertID(uint64)   {}
+func (e *vhC05Exec) GetLastInsertID() uint64  { return 0 }
+func (e *vhC05Exec) HandleSet(*util.RequestContext, string, *ast.SetStmt) (*mysql.Result, error) {
+	return nil, nil
 }
 
 // vhTablesOf lists the sub tables of t the generated statements are sent to, one entry per statement.
@@ -51,7 +81,7 @@ func vhTablesOf(sqls map[string]map[string][]string, indexes []int) (tables []in
 	return
 }
 
-//verif:harness prop=C05 bounds="UPDATE t SET a = 1 WHERE c and DELETE FROM t WHERE c (also with alias and ORDER BY a), parsed by the real parser and planned by the real BuildPlan, on the range rule of C01 (3 tables of 100 rows); c from the C01 grammar (leaf, NOT(leaf), leaf AND leaf2, leaf OR leaf2; literals symbolic in -5..305); row (id, other) any int64; per-shard affected-row counts symbolic"
+//verif:harness prop=C05 bounds="UPDATE t SET a = 1 WHERE c and DELETE FROM t WHERE c (also with alias and ORDER BY a), parsed by the real parser and planned by the real BuildPlan, on the range rule of C01 (3 tables of 100 rows); c from the C01 grammar (leaf, NOT(leaf), leaf AND leaf2, leaf OR leaf2; literals symbolic in -5..305); row (id, other) any int64; per-shard affected-row counts symbolic; the plan is run through its real ExecuteIn against a backend stand-in"
 //verif:mock (*github.com/XiaoMi/Gaea/parser/tidb-types/parser_driver.ValueExpr).Restore vhC03Restore
 func Harness_C05_UpdateDeleteWhere() {
 	vhC03Tokens = map[*driver.ValueExpr]string{}
@@ -99,16 +129,18 @@ func Harness_C05_UpdateDeleteWhere() {
 			vs.Assert(routed[j] != a, "C05/each-sub-table-gets-the-statement-once")
 		}
 	}
-	// the reported count is the sum of what the shards report
-	var rs []*mysql.Result
-	var sum uint64
-	for range routed {
-		n := uint64(vs.SymRange("affected", 0, 1<<40))
-		sum += n
-		rs = append(rs, &mysql.Result{AffectedRows: n})
+	// the reported count is the sum of what the shards report: the plan is executed against a
+	// backend stand-in that answers every statement with a symbolic affected-row count
+	ex := &vhC05Exec{}
+	res, xerr := p.ExecuteIn(util.NewRequestContext(), ex)
+	if len(routed) == 0 {
+		vs.Cover("C05/nothing-routed")
+	} else {
+		vs.Assert(xerr == nil && res != nil && ex.statements == len(routed), "C05/every-generated-statement-is-executed-once")
+		if res != nil {
+			vs.Assert(res.AffectedRows == ex.sum, "C05/affected-rows-is-the-sum-over-the-shards")
+		}
 	}
-	merged, merr := MergeExecResult(rs)
-	vs.Assert(merr == nil && merged.AffectedRows == sum, "C05/affected-rows-is-the-sum-over-the-shards")
 	// every matching row is in a table that gets the statement
 	id, other := vs.Int64("row.id"), vs.Int64("row.other")
 	vs.Assume(vhEval(c, id, other))
